@@ -289,6 +289,223 @@ func (g *rig) readImpacts(prefix string, before []*types.Trace) {
 	}
 }
 
+
+// ---------------------------------------------------------------------------- generator
+
+type gtrace struct {
+	seen    bool
+	first   int64
+	rootAt  int64 // -1: none
+	limitAt int64 // -1: none
+	count   int
+	size    int
+	decided bool
+}
+
+func (t *gtrace) deadline(effTT, effSD int64) int64 {
+	d := t.first + effTT
+	if t.rootAt >= 0 && t.rootAt+effSD < d {
+		d = t.rootAt + effSD
+	}
+	if t.limitAt >= 0 && t.limitAt < d {
+		d = t.limitAt
+	}
+	return d
+}
+
+func pick64(r *kit.Rng, xs ...int64) int64 { return xs[r.Intn(len(xs))] }
+
+func (comp) Gen(r *kit.Rng, maxLen int, tier string) kit.Case {
+	workers := []int{1, 1, 1, 2, 3}[r.Intn(5)]
+	tt := pick64(r, 0, 0, 1, 100, 1000, 1_000_000, 3_000_000_000, 60_000_000_000)
+	sd := pick64(r, 0, 0, 1, 50, 1000, 2_000_000_000, 10_000_000_000)
+	limit := []uint64{0, 0, 0, 1, 2, 2, 3, 5, 32000, 1<<32 + 1, 1<<32 + 2}[r.Intn(11)]
+	maxExp := []uint64{0, 0, 1, 1, 2, 3, 10, 3000, 1 << 63}[r.Intn(9)]
+	if r.Chance(10) { // the all-zero configuration
+		tt, sd, limit, maxExp = 0, 0, 0, 0
+	}
+	// the generator only aims with these (the fall-backs the code applies are measured by `facts`)
+	effTT, effSD := tt, sd
+	if effTT == 0 {
+		effTT = 60_000_000_000
+	}
+	if effSD == 0 {
+		effSD = 2_000_000_000
+	}
+	scale := effTT
+	if effSD < scale {
+		scale = effSD
+	}
+	u := 2 + r.Intn(8)
+	backlog := r.Chance(25)
+	if backlog {
+		u = 6 + r.Intn(14)
+	}
+	n := 6 + r.Intn(maxLen)
+	now := int64(0)
+	tr := make([]gtrace, u)
+	var ops []string
+	pendingDeadlines := func() []int64 {
+		var ds []int64
+		for i := range tr {
+			if tr[i].seen && !tr[i].decided {
+				ds = append(ds, tr[i].deadline(effTT, effSD))
+			}
+		}
+		sort.Slice(ds, func(a, b int) bool { return ds[a] < ds[b] })
+		return ds
+	}
+	adv := func(d int64) {
+		if d < 0 {
+			d = 0
+		}
+		now += d
+		ops = append(ops, fmt.Sprintf("adv %d", d))
+	}
+	tick := func(w int) {
+		ops = append(ops, fmt.Sprintf("tick %d", w))
+		if workers == 1 {
+			exp := 0
+			for i := range tr {
+				if tr[i].seen && !tr[i].decided && tr[i].deadline(effTT, effSD) <= now {
+					exp++
+				}
+			}
+			if maxExp == 0 || maxExp >= 1<<63 || uint64(exp) <= maxExp {
+				for i := range tr {
+					if tr[i].seen && !tr[i].decided && tr[i].deadline(effTT, effSD) <= now {
+						tr[i].decided = true
+					}
+				}
+			}
+		}
+	}
+	span := func() {
+		k := r.Intn(u)
+		if backlog && r.Chance(70) { // spread over many traces
+			k = r.Intn(u)
+			for j := 0; j < 3 && tr[k].seen; j++ {
+				k = r.Intn(u)
+			}
+		}
+		root := r.Chance(25)
+		bytes := int(pick64(r, 0, 1, 2, 10, 10, 100, 1000))
+		age := pick64(r, 0, 0, 0, effTT/8, effTT/4, effTT/2, effTT, 2*effTT)
+		t := &tr[k]
+		if !t.seen {
+			*t = gtrace{seen: true, first: now, rootAt: -1, limitAt: -1}
+		}
+		if !t.decided {
+			t.count++
+			t.size += bytes
+			if root && t.rootAt < 0 {
+				t.rootAt = now
+			}
+			if limit > 0 && uint64(t.count) > limit && t.limitAt < 0 {
+				t.limitAt = now
+			}
+		}
+		b := 0
+		if root {
+			b = 1
+		}
+		ops = append(ops, fmt.Sprintf("span %d %d %d %d", k, b, bytes, age))
+	}
+	total := func() int {
+		s := 0
+		for i := range tr {
+			if tr[i].seen && !tr[i].decided {
+				s += tr[i].size
+			}
+		}
+		return s
+	}
+	for i := 0; i < n; i++ {
+		w := r.Intn(workers)
+		weights := []int{45, 22, 20, 9, 1}
+		if backlog && i < n/2 {
+			weights = []int{80, 10, 4, 5, 1}
+		}
+		switch r.Pick(weights...) {
+		case 0:
+			span()
+		case 1:
+			ds := pendingDeadlines()
+			var fut []int64
+			for _, d := range ds {
+				if d >= now {
+					fut = append(fut, d-now)
+				}
+			}
+			switch {
+			case len(fut) > 0 && r.Chance(65):
+				d := fut[r.Intn(len(fut))]
+				switch r.Intn(4) {
+				case 0:
+					d++ // one ns after the deadline
+				case 1:
+					d-- // one ns before
+				}
+				adv(d)
+			default:
+				adv(pick64(r, 0, 1, scale/2, scale-1, scale, scale+1, effTT-1, effTT, effTT+1, effSD-1, effSD, effSD+1, int64(r.Intn(int(min64(scale, 1_000_000))+2))))
+			}
+			if r.Chance(50) {
+				tick(w)
+			}
+		case 2:
+			tick(w)
+		case 3:
+			t := total()
+			one := 0
+			for j := range tr {
+				if tr[j].seen && !tr[j].decided && r.Chance(40) {
+					one = tr[j].size
+				}
+			}
+			b := pick64(r, 0, 0, 1, int64(one)-1, int64(one), int64(one)+1, int64(t/2), int64(t)-1, int64(t), int64(t)+1, int64(10*t+5))
+			if b < 0 {
+				b = 0
+			}
+			ops = append(ops, fmt.Sprintf("eject %d %d", w, b))
+			if workers == 1 && b >= int64(t) {
+				for j := range tr {
+					if tr[j].seen {
+						tr[j].decided = true
+					}
+				}
+			}
+		case 4:
+			ops = append(ops, fmt.Sprintf("alloc %d", pick64(r, -1_000_000_000, 0, 1, 100, 10_000, 1_000_000, 1<<40)))
+		}
+	}
+	// flush: move past every pending deadline and tick until every buffer must be empty
+	ds := pendingDeadlines()
+	if len(ds) > 0 && ds[len(ds)-1] >= now {
+		adv(ds[len(ds)-1] - now + int64(r.Intn(2)))
+	}
+	rounds := 1
+	if maxExp > 0 && maxExp < 1<<63 {
+		rounds = (u + int(maxExp) - 1) / int(maxExp)
+		if rounds > 24 {
+			rounds = 24
+		}
+	}
+	for k := 0; k < rounds; k++ {
+		for w := 0; w < workers; w++ {
+			ops = append(ops, fmt.Sprintf("tick %d", w))
+		}
+	}
+	return kit.Case{Header: fmt.Sprintf("tt=%d sd=%d limit=%d max=%d workers=%d", tt, sd, limit, maxExp, workers), Ops: ops}
+}
+
+func min64(a, b int64) int64 {
+	if a < b {
+		return a
+	}
+	return b
+}
+
 type runner struct{ g *rig }
 
 func (comp) NewCase(h []string) kit.Runner {
